@@ -4259,7 +4259,9 @@ func (c *Ctx) checkParseAcsReadsWholeText() {
 	}
 	r.Func(fk(fn))
 	text := fn.Params[0]
-	isLen := isLenOf(func(v ssa.Value) bool { return core.Strip(v) == ssa.Value(text) })
+	isLenText := isLenOf(func(v ssa.Value) bool { return core.Strip(v) == ssa.Value(text) })
+	// len(text) itself or a bound computed from it (`last := len(b) - 1`)
+	isLen := func(v ssa.Value) bool { return isLenText(v) || derivesAny(v, isLenText) }
 	g := core.LessGuard("x < len(text)", core.Any, isLen, false)
 	ei := errIndex(fn.Signature)
 	n := 0
